@@ -62,6 +62,7 @@ func (d *FileDriver) Init() error {
 					d.file.Close()
 					err := d.openFile()
 					d.lock.Unlock()
+					verifEvent("file.rotated")
 					if err != nil {
 						return
 					}
@@ -79,6 +80,7 @@ func (d *FileDriver) Send(key, data []byte) error {
 	d.lock.RLock()
 	w := d.w
 	d.lock.RUnlock()
+	verifSched("file.send.have_writer")
 	_, err := fmt.Fprint(w, string(data)+d.lineSeparator)
 	return err
 }
